@@ -328,7 +328,168 @@ def _is_copy_of(v, param):
         v[0] == "call" and v[1] == f"{param}.copy")
 
 
+def _judge_fuse(model, fn, module):
+    """interpretive judge (pv/absint.py): fuse_statement_streams_with_unique_ids
+    interpreted on small streams of abstract statements (an id, a set of
+    dependency ids, copy(**changes)), with pytools' UniqueNameGenerator modelled
+    as documented (the requested name if it is free, else name_0, name_1, ...;
+    every name handed out is taken from then on).  Checked on what comes back:
+    all ids distinct; the first stream is the head of the result, unchanged;
+    the i-th statement of the second stream follows with the id the returned
+    mapping gives it; its dependencies are the mapped dependencies.  The
+    streams include ones that are themselves the result of an earlier fusion
+    (ids that look like generated ones).  -> witnesses"""
+    from ..absint import Closure, Interp, Opaque, Raised, StepBound, module_env
+    wit = []
+    glob = module_env(module.tree, {})
+    an = model.repo.modules.get("pymbolic.imperative.analysis")
+    if an is not None:
+        for st in an.tree.body:
+            if isinstance(st, ast.FunctionDef):
+                glob.setdefault(st.name, Closure(st, glob))
+                glob[st.name] = Closure(st, glob)
+
+    class Stmt:
+        def __init__(self, id, depends_on=(), origin=None):
+            self.id = id
+            self.depends_on = frozenset(depends_on)
+            self.origin = origin if origin is not None else self
+
+        def copy(self, **kw):
+            unknown = set(kw) - {"id", "depends_on"}
+            if unknown:
+                raise AnalysisError(f"Statement.copy({sorted(unknown)}=...)")
+            return Stmt(kw.get("id", self.id),
+                        kw.get("depends_on", self.depends_on), self.origin)
+
+    class Gen:
+        def __init__(self, existing=()):
+            self.existing = set(existing)
+
+        def is_name_conflicting(self, name):
+            return name in self.existing
+
+        def add_name(self, name, **kw):
+            self.existing.add(name)
+
+        def add_names(self, names, **kw):
+            self.existing.update(names)
+
+        def __call__(self, based_on="id"):
+            cand, i = based_on, 0
+            while cand in self.existing:
+                cand = f"{based_on}_{i}"
+                i += 1
+            self.existing.add(cand)
+            return cand
+
+    def attrs(it, n_, base, attr):
+        if isinstance(base, (Stmt, Gen)) and hasattr(base, attr):
+            return getattr(base, attr)
+        return Opaque(ast.unparse(n_))
+
+    def S(*specs):
+        return [Stmt(i, d) for i, d in specs]
+    P = (("x", ()), ("y", ("x",)))
+    scenarios = [
+        ("clashing and free ids", S(("s0", ()), ("s1", ("s0",))),
+         S(("s0", ()), ("s2", ("s0",)))),
+        ("no clash at all", S(("a", ())), S(("b", ()), ("c", ("b",)))),
+        ("P + P", S(*P), S(*P)),
+        ("P + (P + P): the second stream already holds generated-looking ids",
+         S(*P), S(("x", ()), ("y", ("x",)), ("x_0", ()), ("y_0", ("x_0",)))),
+        ("a generated-looking id first, its base name after it",
+         S(("x", ())), S(("x_0", ()), ("x", ("x_0",)))),
+        ("the first stream holds name and name_0", S(("s", ()), ("s_0", ())),
+         S(("s", ()), ("t", ("s",)))),
+        ("dependents listed before what they depend on, ids clashing",
+         S(("x", ()), ("y", ("x",))), S(("y", ("x",)), ("x", ()))),
+        ("a diamond listed bottom-up", S(("top", ())),
+         S(("bottom", ("l", "r")), ("l", ("top",)), ("r", ("top",)),
+           ("top", ()))),
+        ("empty second stream", S(("a", ())), []),
+        ("empty first stream", [], S(("a", ()), ("b", ("a",)))),
+    ]
+    for label, sa, sb in scenarios:
+        it = Interp(calls={
+            "UniqueNameGenerator": lambda it_, n_, a, k: Gen(
+                *(a[:1] or ([k["existing_names"]] if "existing_names" in k
+                            else []))),
+        }, attrs=attrs, globals_=glob, max_steps=60000)
+        try:
+            res = it.call_function(fn, [list(sa), list(sb)], dict(glob))
+        except Raised as r:
+            wit.append(f"{label}: raises at line {r.node.lineno}")
+            continue
+        except StepBound:
+            wit.append(f"{label}: does not terminate")
+            continue
+        if not (isinstance(res, tuple) and len(res) == 2
+                and isinstance(res[1], dict)):
+            wit.append(f"{label}: returns {res!r}")
+            continue
+        out, mp = list(res[0]), res[1]
+        if not all(isinstance(x, Stmt) for x in out):
+            wit.append(f"{label}: the fused stream holds something that is no "
+                       "statement")
+            continue
+        ids = [x.id for x in out]
+        if len(set(ids)) != len(ids):
+            dup = sorted({i for i in ids if ids.count(i) > 1})
+            wit.append(f"{label}: the fused stream holds the id(s) {dup} twice")
+            continue
+        if len(out) != len(sa) + len(sb) or any(
+                o.id != s_.id or o.depends_on != s_.depends_on
+                for o, s_ in zip(out, sa)):
+            wit.append(f"{label}: the result does not begin with the first "
+                       "stream as it was")
+            continue
+        if set(mp) != {s_.id for s_ in sb}:
+            wit.append(f"{label}: the id mapping covers {sorted(mp)}, the second "
+                       f"stream's ids are {sorted(s_.id for s_ in sb)}")
+            continue
+        for o, s_ in zip(out[len(sa):], sb):
+            if o.origin is not s_ or o.id != mp[s_.id]:
+                wit.append(f"{label}: statement '{s_.id}' of the second stream "
+                           f"does not follow with the id the mapping gives it")
+                break
+            if o.depends_on != frozenset(mp[d] for d in s_.depends_on):
+                wit.append(f"{label}: the dependencies of '{s_.id}' are "
+                           f"{sorted(o.depends_on)}, the mapped ones "
+                           f"{sorted(mp[d] for d in s_.depends_on)}")
+                break
+    return wit, len(scenarios)
+
+
 def _check_fuse(ctx, model):
+    m, fn = model.func(f"{TR}:fuse_statement_streams_with_unique_ids")
+    loc = m.loc(fn)
+    try:
+        wit, n_sc = _judge_fuse(model, fn, m)
+    except AnalysisError as e:
+        wit = None
+        ctx.extra["judge_unavailable:fuse_statement_streams_with_unique_ids"] = \
+            str(e)
+    if wit is not None:
+        ctx.ob("P0/fuse/semantics", not wit, loc,
+               f"fuse_statement_streams_with_unique_ids interpreted on {n_sc} "
+               "pairs of abstract streams (clashing / free / generated-looking "
+               "ids, repeated fusion): ids distinct, first stream unchanged, "
+               "second stream renamed by the returned mapping, dependencies "
+               "remapped" if not wit else
+               "fuse_statement_streams_with_unique_ids: " + "; ".join(wit[:3]))
+    mark = len(ctx.obs)
+    try:
+        _check_fuse_structural(ctx, model)
+    except AnalysisError:
+        if wit is None:
+            raise
+    if wit is not None and not wit:
+        ctx.withdraw_failures_since(mark, "decided by interpreting the function "
+                                    "on abstract streams", "P/fuse/")
+
+
+def _check_fuse_structural(ctx, model):
     m, fn = model.func(f"{TR}:fuse_statement_streams_with_unique_ids")
     loc = m.loc(fn)
     a, b = [x.arg for x in fn.args.args][:2]
